@@ -434,6 +434,24 @@ func suiteTtml(R *runner, r *rng) {
 		}
 		R.add(o)
 	}
+	// the worked example of the composite reading theorem, replayed on the library
+	{
+		o := &obs{Suite: "ttmlrenderex", Group: "ttml.read.rendered_example", NT: true, Human: map[string]interface{}{"doc": ttRenderExDoc}}
+		root, _, perr := parseXMLTree([]byte(ttRenderExDoc))
+		impl, _, problems, _, rerr := ttReadImpl([]byte(ttRenderExDoc))
+		switch {
+		case perr != nil || rerr != nil:
+			o.NoModel, o.Impl = true, "1"
+			o.Oracle, o.Sig = fmt.Sprintf("worked example rejected: %v / %v", perr, rerr), "ttml-rendered-example"
+		case len(problems) > 0:
+			o.NoModel, o.Impl = true, "1"
+			o.Oracle, o.Sig = problems[0], "ttml-rendered-example"
+		default:
+			o.Input = (&enc{}).xnode(root).String()
+			o.Impl = "1 " + strings.TrimPrefix(impl, "0 ")
+		}
+		R.add(o)
+	}
 	// repository samples (model comparison)
 	for _, f := range []string{"example-in.ttml", "example-in-breaklines.ttml", "example-out.ttml", "example-out-breaklines.ttml", "example-out-no-indent.ttml"} {
 		if b, err := readRepoFile("testdata/" + f); err == nil {
